@@ -12,6 +12,13 @@ const ssPkg = "pkg/core/statesync"
 func ruleSyncGuards(c *Ctx) {
 	fnAB := [3]string{ssPkg, "Module", "AddBlock"}
 	runGates(c, []GateSpec{
+		// at most once: the ledger reads the height it compares the block index with inside the critical section that
+		// stores the block (queue, consensus and fetcher all call AddBlock; a test made before the lock lets each of
+		// them store the same block)
+		{ID: "Blockchain.AddBlock.height-under-lock", Fn: [3]string{"pkg/core", "Blockchain", "AddBlock"}, Target: "call:" + symBlockHeight,
+			MustNode: [][]string{{"sync.(*Mutex).Lock", "pkg/core#addLock"}}},
+		{ID: "Blockchain.AddBlock.store", Fn: [3]string{"pkg/core", "Blockchain", "AddBlock"}, Target: "call:" + symStoreBlock,
+			Guards: []Guard{{ID: "next-index", Doc: "block index equals current height + 1", Alts: [][]string{{symBlockHeight, fldBlockIndex}}}}},
 		{ID: "Billet.putIntoHash.store", Fn: [3]string{"pkg/core/mpt", "Billet", "putIntoHash"}, Target: "call:pkg/core/mpt.(*Billet).incrementRefAndStore",
 			Guards: []Guard{{ID: "hash-match", Doc: "a restored node is stored only if its hash equals the hash node it replaces", Alts: [][]string{{"pkg/core/mpt.(BaseNodeIface).Hash", "pkg/core/mpt.(*HashNode).Hash", "param#2", "param#0"}}},
 				{ID: "not-collapsed-path", Doc: "a non-empty remaining path means the subtree is already restored: rejected", Alts: [][]string{{"builtin.len", "param#1"}}}}},
